@@ -490,6 +490,17 @@ def b_list(vm, args, kwargs, ctx):
 
 
 def b_tuple(vm, args, kwargs, ctx):
+    if args and isinstance(args[0], I.LazyGen):
+        node = args[0].node
+        if len(node.generators) == 1 and node.generators[0].ifs and isinstance(node.elt, ast.Name) \
+                and isinstance(node.generators[0].target, ast.Name) and node.elt.id == node.generators[0].target.id:
+            # tuple(x for x in seq if p(x)) over a sequence of symbolic length: a filter (see Interp.e_ListComp)
+            lc = ast.ListComp(elt=node.elt, generators=node.generators)
+            ast.copy_location(lc, node)
+            r = vm.e_ListComp(lc, args[0].env, ctx)
+            if isinstance(r, I.SFilter):
+                return r
+            return tuple(r)
     return tuple(vm.iterate(args[0])) if args else ()
 
 
@@ -595,7 +606,29 @@ def b_next(vm, args, kwargs, ctx):
         node = it.node
         g = node.generators[0]
         if len(node.generators) == 1:
-            seq = vm.iterate(vm.eval(g.iter, it.env))
+            src = vm.eval(g.iter, it.env)
+            if isinstance(src, I.GenCall):
+                src = vm.gencall_as_sseq(src) or src
+            if isinstance(src, SSeq) and not z3.is_int_value(z3.simplify(src.length)):
+                # first element of a sequence of symbolic length satisfying the filter (least index), or the default
+                def pred(i):
+                    e2 = Env(it.env)
+                    vm.assign_target(g.target, src.elem(i), e2)
+                    vm.pure += 1
+                    try:
+                        cs = [_b(vm.truthy(vm.eval(c, e2, I.TRUTH))) for c in g.ifs]
+                        return z3.And(*cs) if cs else z3.BoolVal(True)
+                    finally:
+                        vm.pure -= 1
+                flt = I.SFilter(vm, src, pred)
+                if vm.decide(flt.nonempty):
+                    e2 = Env(it.env)
+                    vm.assign_target(g.target, flt.first(vm), e2)
+                    return vm.eval(node.elt, e2)
+                if len(args) > 1:
+                    return args[1]
+                raise PyRaise(I.ExcClass('StopIteration'))
+            seq = vm.iterate(src)
             for item in seq:
                 e2 = Env(it.env)
                 vm.assign_target(g.target, item, e2)
